@@ -18,13 +18,13 @@ def corpus(ctx):
         fam = list(gen_graph.exhaustive_family(4, max_inc=1))
         gs += [g for i, g in enumerate(fam) if i % 3 == ctx.seed % 3]
         gs += [gen_proc.random_proc_graph(rng, nmin=4, nmax=9, max_space=60) for _ in range(350)]
-        gs += [gen_cc.theory_conn_example()] + gen_cc.exclusion_with_conditional_target_examples() + [gen_cc.random_cc_graph(rng) for _ in range(120)]
+        gs += [gen_cc.theory_conn_example()] + gen_cc.exclusion_with_conditional_target_examples() + [gen_cc.intermediate_infeasibility_example()] + [gen_cc.random_cc_graph(rng) for _ in range(120)]
     else:
         gs += list(gen_graph.exhaustive_family(4, max_inc=1))
         fam5 = list(gen_graph.exhaustive_family(5, max_inc=1))
         gs += [g for i, g in enumerate(fam5) if i % 6 == ctx.seed % 6]
         gs += [gen_proc.random_proc_graph(rng, nmin=4, nmax=11, max_space=150) for _ in range(4000)]
-        gs += [gen_cc.theory_conn_example()] + gen_cc.exclusion_with_conditional_target_examples() + [gen_cc.random_cc_graph(rng, nmin=3, nmax=9) for _ in range(1500)]
+        gs += [gen_cc.theory_conn_example()] + gen_cc.exclusion_with_conditional_target_examples() + [gen_cc.intermediate_infeasibility_example()] + [gen_cc.random_cc_graph(rng, nmin=3, nmax=9) for _ in range(1500)]
     return gs
 
 
